@@ -348,15 +348,17 @@ class Corr:
             "rid": trsnap["rid"],
         }
 
-    def _cmp_trackers(self, out, phase, post_trs, ans_trs, quantum_ok=None):
+    def _cmp_trackers(self, out, phase, post_trs, ans_trs, quantum_ok=None, dmg_scales=None):
         for i, (pt, at) in enumerate(zip(post_trs, ans_trs)):
             loose = quantum_ok[i] if quantum_ok is not None else 0.0
+            dmg_scale = (dmg_scales[i] if dmg_scales is not None else 1.0)
             tag = f"tracker[{i}]."
             fields_ok = True
             for f in ("dmg", "hdmg", "arb", "remI", "remH"):
                 iv, mv = pt[f], at[f]
                 if (iv is None) != (mv is None):
-                    if loose and (np.abs(iv if iv is not None else unqarr(mv)).max() <= loose * 1.0000001):
+                    lim = loose * (dmg_scale if f in ("dmg", "hdmg") else 1.0)
+                    if loose and (np.abs(iv if iv is not None else unqarr(mv)).max() <= lim * 1.0000001):
                         self.stats.tie("round-to-zero")
                         continue
                     out.append(Mismatch(phase=phase, var=tag + f, what=f"implementation {'None' if iv is None else 'set'}, model {'None' if mv is None else 'set'}"))
@@ -364,7 +366,7 @@ class Corr:
                     continue
                 if iv is None:
                     continue
-                extra = loose if f in ("remI", "remH", "arb") else (loose * (self.N + 1) * 4 if f in ("dmg", "hdmg") else 0.0)
+                extra = loose if f in ("remI", "remH", "arb") else (loose * dmg_scale if f in ("dmg", "hdmg") else 0.0)
                 if not cmp_arr(out, phase, tag + f, iv, unqarr(mv), extra_abs=extra * 1.0000001):
                     fields_ok = False
             if pt["status"] != at["status"]:
@@ -442,7 +444,9 @@ class Corr:
         for tq, rm in zip(trs, ans["roundMargins"]):
             qq = 1e-6 if tq["kind"] == "arbitrary" else 10.0 ** (-tq["prec"])
             quantum.append(qq if unq(rm) <= 1e-9 else 0.0)
-        self._cmp_trackers(out, "events_post", post["trackers"], ans["trackers"], quantum_ok=quantum)
+        # a ledger cell off by one quantum moves the reported damage (column sum / factor) by up to N quanta / factor
+        scales = [((self.N + 1) / max(unq(tq["factor"]), 1e-12) if tq["kind"] == "rebuild" else 1.0) for tq in trs]
+        self._cmp_trackers(out, "events_post", post["trackers"], ans["trackers"], quantum_ok=quantum, dmg_scales=scales)
         for a, b in zip(pre["trackers"], post["trackers"]):
             if a["status"] != b["status"]:
                 self.stats.branch(f"status.{a['status']}->{b['status']}")
